@@ -111,6 +111,8 @@ type kase struct {
 	varsBad bool
 	execErr bool
 	qcache  bool
+	// the envelope carries an operationName key even when the name is empty (`"operationName": ""`)
+	opExplicit bool
 }
 
 func hdrMap(t tcfg) map[string][]string {
@@ -179,11 +181,11 @@ func badDocs() []doc {
 		{class: "P", text: "query a { name"},
 		{class: "P", text: "{ name } }"},
 		{class: "P", text: "mutation { name"},
-		{class: "I", text: "query a { nosuch }"},
-		{class: "I", text: "mutation { nosuch }"},
-		{class: "I", text: "{ name } mutation b { name }"},       // lone anonymous operation
-		{class: "I", text: "query a { name } mutation a { name }"}, // duplicate operation names
-		{class: "I", text: "query a { name } query a { name }"},
+		{class: "I", text: "query a { nosuch }", ops: []op{{"query", "a"}}},
+		{class: "I", text: "mutation { nosuch }", ops: []op{{"mutation", ""}}},
+		{class: "I", text: "{ name } mutation b { name }", ops: []op{{"query", ""}, {"mutation", "b"}}},       // lone anonymous operation
+		{class: "I", text: "query a { name } mutation a { name }", ops: []op{{"query", "a"}, {"mutation", "a"}}}, // duplicate operation names
+		{class: "I", text: "query a { name } query a { name }", ops: []op{{"query", "a"}, {"query", "a"}}},
 		{class: "V", text: ""}, // no operation provided
 		{class: "V", text: "fragment f on Query { name }"},
 	}
@@ -208,7 +210,7 @@ func (k *kase) envelope(query string, withQuery bool) map[string]any {
 	if withQuery {
 		m["query"] = query
 	}
-	if k.opName != "" {
+	if k.opName != "" || k.opExplicit {
 		m["operationName"] = k.opName
 	}
 	if k.d.vars {
@@ -219,7 +221,7 @@ func (k *kase) envelope(query string, withQuery bool) map[string]any {
 		}
 	}
 	switch k.apq {
-	case "miss", "hit":
+	case "miss", "hit", "register":
 		m["extensions"] = map[string]any{"persistedQuery": map[string]any{"version": 1, "sha256Hash": sha(query)}}
 	case "mismatch":
 		m["extensions"] = map[string]any{"persistedQuery": map[string]any{"version": 1, "sha256Hash": sha(query + " ")}}
@@ -232,7 +234,7 @@ func js(v any) string { b, _ := json.Marshal(v); return string(b) }
 // build constructs the concrete HTTP request carrying the abstract case.
 func (k *kase) build() built {
 	kk := *k
-	withQuery := kk.apq == "" || kk.apq == "mismatch"
+	withQuery := kk.apq == "" || kk.apq == "mismatch" || kk.apq == "register"
 	b := built{opName: kk.opName, varsOK: !kk.d.vars || !kk.varsBad, dec: kk.dec}
 	var body []byte
 	target := "/graphql"
@@ -484,8 +486,8 @@ func modelSrv(srv []tcfg) string {
 
 var ncase int
 
-func run(k kase) {
-	ncase++
+// newServer builds the server of a single-request case.
+func newServer(k kase) (*handler.Server, *recSchema) {
 	es := &recSchema{execErr: k.execErr}
 	srv := handler.New(es)
 	for _, t := range k.srv {
@@ -501,6 +503,25 @@ func run(k kase) {
 		}
 		srv.Use(extension.AutomaticPersistedQuery{Cache: cache})
 	}
+	return srv, es
+}
+
+func run(k kase) {
+	if dry {
+		trace = append(trace, step{k: k, sess: -1})
+		return
+	}
+	srv, es := newServer(k)
+	in, obs, descr := serveOne(srv, es, k)
+	fmt.Fprintf(out, "c\t%s\t%s\t%s\t%d\t-\n", in, obs, js(descr), ncase-1)
+}
+
+// serveOne sends the request of k to srv and answers the abstract request (for the Lean model), the
+// observation and the concrete request.
+func serveOne(srv http.Handler, es *recSchema, k kase) (string, string, map[string]any) {
+	ncase++
+	es.log = nil
+	es.execErr = k.execErr
 	b := k.build()
 	w := &recorder{hdr: http.Header{}}
 	func() {
@@ -527,8 +548,15 @@ func run(k kase) {
 		exec = strings.Join(es.log, ",")
 	}
 	obs := fmt.Sprintf("%d %s %s %s", w.status, strings.ReplaceAll(ct, " ", ""), classifyBody(body), exec)
+	in := abstractOf(k, b)
+	b.descr["apq"] = k.apq
+	b.descr["sniffed"] = sniff
+	b.descr["response_body"] = string(body)
+	return in, obs, b.descr
+}
 
-	// abstract request
+// abstractOf is the request as the Lean model `serve` takes it.
+func abstractOf(k kase, b built) string {
 	acc := "~"
 	if k.accSet && b.req.Header.Get("Accept") != "" { // an empty Accept value is an absent one
 		p := make([]string, len(k.accept))
@@ -536,14 +564,6 @@ func run(k kase) {
 			p[i] = strings.ReplaceAll(a.class, "/", "%")
 		}
 		acc = strings.Join(p, ",")
-	}
-	docTok := k.d.class
-	if k.d.class == "V" {
-		p := make([]string, len(k.d.ops))
-		for i, o := range k.d.ops {
-			p[i] = opTok(o.kind, o.name)
-		}
-		docTok = "V" + strings.Join(p, ":")
 	}
 	opn := b.opName
 	if opn == "" {
@@ -570,17 +590,27 @@ func run(k kase) {
 	if k.execErr {
 		ee = "err"
 	}
-	method := k.method
-	switch method {
+	return strings.Join([]string{modelSrv(k.srv), absMethod(k.method), up, k.rct, acc, dec, param, docTok(k.d, false), opn, vo, ee}, " ")
+}
+
+func absMethod(m string) string {
+	switch m {
 	case "GET", "POST", "HEAD", "OPTIONS":
-	default:
-		method = "OTHER"
+		return m
 	}
-	in := strings.Join([]string{modelSrv(k.srv), method, up, k.rct, acc, dec, param, docTok, opn, vo, ee}, " ")
-	b.descr["apq"] = k.apq
-	b.descr["sniffed"] = sniff
-	b.descr["response_body"] = string(body)
-	fmt.Fprintf(out, "c\t%s\t%s\t%s\n", in, obs, js(b.descr))
+	return "OTHER"
+}
+
+// docTok: the document outcome class; withOps also names the operations of an invalid document
+func docTok(d doc, withOps bool) string {
+	if d.class == "V" || (withOps && d.class == "I") {
+		p := make([]string, len(d.ops))
+		for i, o := range d.ops {
+			p[i] = opTok(o.kind, o.name)
+		}
+		return d.class + strings.Join(p, ":")
+	}
+	return d.class
 }
 
 // ---------------------------------------------------------------- generators
@@ -994,17 +1024,31 @@ func tableTie(r *rng.R, n int) {
 func main() {
 	tier := flag.String("tier", "quick", "")
 	seed := flag.Uint64("seed", 1, "")
+	corpus := flag.String("corpus", "", "JSON file of directed request sequences")
+	minStep := flag.Int("min", -1, "minimise the history of step N (prints one JSON object)")
+	window := flag.Int("window", 48, "single-request cases before step N considered by -min")
 	flag.Parse()
 	defer out.Flush()
 	checkPools()
 	r := rng.New(*seed)
 
-	nrand, nmal, ntab := 6000, 3000, 500
+	nrand, nmal, ntab, nsessions := 6000, 3000, 500, 150
 	if *tier == "thorough" {
-		nrand, nmal, ntab = 150000, 60000, 5000
+		nrand, nmal, ntab, nsessions = 150000, 60000, 5000, 3000
+	}
+	if *minStep >= 0 {
+		dry = true
+		defer func() {
+			dry = false
+			minimise(*minStep, *window)
+		}()
 	}
 
-	tableTie(r, ntab)
+	if !dry {
+		tableTie(r, ntab)
+	} else {
+		tableTieDry(r, ntab)
+	}
 
 	// 1. exhaustive structured product on the full transport list (default configuration)
 	docs := structuredDocs()
@@ -1086,5 +1130,24 @@ func main() {
 	}
 	for i := 0; i < nmal; i++ {
 		run(randCase(r, true))
+	}
+	// 7. request sequences against long-lived production-like servers (seq.go)
+	sessions(*seed, nsessions, *corpus)
+}
+
+// tableTieDry consumes the random numbers tableTie consumes (so that -min regenerates the same cases).
+func tableTieDry(r *rng.R, n int) {
+	for i := 0; i < n; i++ {
+		m := r.Below(5)
+		for j := 0; j < m; j++ {
+			r.Below(6)
+		}
+	}
+	for i := 0; i < n; i++ {
+		m := 1 + r.Below(5)
+		for j := 0; j < m; j++ {
+			r.Below(len(accPool))
+		}
+		r.Below(len(ctPool))
 	}
 }
